@@ -692,6 +692,23 @@ class CallMixin:
 
     def fresh_resolved(self, desc: Any, name: str, is_input: bool = False) -> V:
         """Fresh value for a descriptor, forking over Opt/OneOf/ListOf alternatives."""
+        model = self.concrete_model if is_input else None
+        if model is not None:
+            from .native_replay import has_keys, matches
+            if isinstance(desc, dsl.Opt):
+                return self.fresh_resolved(desc.inner, name, is_input) if has_keys(name, model) else NONE
+            if isinstance(desc, dsl.OneOf):
+                for alt in desc.alts:
+                    if matches(alt, name, model):
+                        return self.fresh_resolved(alt, name, is_input)
+                return self.fresh_resolved(desc.alts[0], name, is_input)
+            if isinstance(desc, dsl.ListOf):
+                items = []
+                while has_keys(f"{name}[{len(items)}]", model):
+                    items.append(self.fresh_resolved(desc.elem, f"{name}[{len(items)}]", is_input))
+                return TupleV(items) if desc.as_tuple else ListV(items)
+            if desc in (dsl.Int, dsl.Bool, dsl.Real, dsl.Str):
+                return self.from_python(model.get(name, {dsl.Int: 0, dsl.Bool: False, dsl.Real: 0.0, dsl.Str: "s"}[desc]))
         if isinstance(desc, dsl.Opt):
             if self.ctx.decide(2) == 0:
                 return NONE
